@@ -27,8 +27,8 @@ ASSUMPTIONS = [
     "interleavings are explored at the granularity of environment suspension points (task body, result backend, async ack)",
 ]
 TRUSTED = ["CPython asyncio (real, on a virtual clock)", "vt.sym explorer", "recording stubs in vt/props/_recv.py"]
-BOUNDS = {"messages": "1 (all configurations); 2 concurrent (2 outcomes quick / all 6 thorough); 3 concurrent (thorough, reduced)", "middlewares": "<= 1", "timer ticks": "<= 6"}
-REQUIRED_COVERS = ["when_received", "when_executed", "when_saved", "async_ack", "sync_ack", "timeout_fired", "no_result", "backend_failed", "pair_interleaved", "post_save_raises", "same_task_id", "via_listen"]
+BOUNDS = {"cancellation": "of message 0's processing at one scheduler-chosen suspension point (1 message, outcomes return / no-result)", "messages": "1 (all configurations); 2 concurrent (2 outcomes quick / all 6 thorough); 3 concurrent (thorough, reduced)", "middlewares": "<= 1", "timer ticks": "<= 6"}
+REQUIRED_COVERS = ["processing_cancelled", "acked_although_cancelled", "when_received", "when_executed", "when_saved", "async_ack", "sync_ack", "timeout_fired", "no_result", "backend_failed", "pair_interleaved", "post_save_raises", "same_task_id", "via_listen"]
 
 
 def cases(tier: str, hname: str = "harness") -> List[Any]:
@@ -46,6 +46,11 @@ def cases(tier: str, hname: str = "harness") -> List[Any]:
             # two overlapping deliveries of the same task id (a redelivery / duplicate)
             out.append({"n": 2, "ack": ack, "async_ack": async_ack, "target": "async", "outcome0": "return", "same_id": True,
                         "timeout_label0": False, "timeout_label1": False, "backend_fail0": False, "backend_fail1": False, "pair_outcomes": ("return", "raise_exc")})
+            # the processing of the message is cancelled (worker crash / shutdown) at any suspension point: task body, async
+            # post_execute hook, result backend, async ack
+            for o0 in ("return", "no_result"):
+                out.append({"n": 1, "ack": ack, "async_ack": async_ack, "target": "async", "outcome0": o0, "timeout_label0": False,
+                            "backend_fail0": False, "task_gate": True, "backend_gate": True, "crash": True})
             if tier == "thorough":
                 for o0 in ("return", "raise_exc", "timeout"):
                     out.append({"n": 3, "ack": ack, "async_ack": async_ack, "target": "async", "outcome0": o0, "timeout_label0": False,
@@ -87,9 +92,42 @@ def check_ack(c: sym.Ctx, lab: Any, i: int, ack: str) -> None:
     # other messages' acks must not be triggered by this message: covered by exactly-once per message
 
 
+def check_ack_crashed(c: sym.Ctx, lab: Any, ack: str, outcome: str) -> None:
+    """message 0 after its processing was cancelled at some suspension point: the acknowledgement happens at most once and, if it
+    happens, its configured point had been reached (a crash before the point leaves the message unacknowledged)"""
+    calls, effs = lab.count("ack_call", 0), lab.count("ack", 0)
+    c.check(calls <= 1 and effs <= 1, "ack_at_most_once_when_processing_is_cancelled", calls=calls, effects=effs, ack_type=ack)
+    if effs < 1:
+        return
+    c.cover("acked_although_cancelled")
+    pos = lab.index("ack", 0)
+    start, end = lab.index("task_start", 0), lab.index("task_end", 0)
+    if ack == "when_received":
+        c.check(start < 0 or pos < start, "ack_when_received_before_start", msg=0, crashed=True)
+    elif ack == "when_executed":
+        c.check(end >= 0 and pos > end, "ack_when_executed_after_task_end", msg=0, pos=pos, end=end, crashed=True)
+    else:
+        fin = max(lab.index("set_result", "end", "id0"), lab.index("set_result", "raise", "id0"))
+        if outcome == "no_result":
+            c.check(end >= 0 and pos > end, "ack_when_saved_after_task_end_when_skipped", msg=0, crashed=True)
+        else:
+            c.check(fin >= 0 and pos > fin, "ack_when_saved_after_save_attempt", msg=0, pos=pos, fin=fin, crashed=True)
+
+
 def harness(c: sym.Ctx, case: Dict[str, Any]) -> None:
     spec = {k: v for k, v in case.items() if k not in ("n", "pair_outcomes")}
     n = case["n"]
+    if case.get("crash"):
+        spec["mws"] = [{"post_execute": "async"}]
+        lab = _cb.run(c, spec, n_msgs=1)
+        c.cover(spec["ack"])
+        c.check(not lab.deadlock and lab.main_done, "no_deadlock", events=lab.ev[-10:])
+        if ("env", "crash") in [e[:2] for e in lab.ev]:
+            c.cover("processing_cancelled")
+            check_ack_crashed(c, lab, spec["ack"], spec["outcome0"])
+        else:
+            check_ack(c, lab, 0, spec["ack"])
+        return
     if n >= 2:
         for k in range(1, n):
             spec[f"outcome{k}"] = c.choose(list(case["pair_outcomes"]), f"outcome{k}")
